@@ -24,6 +24,9 @@ struct Rec {
 impl Write for Rec {
     fn write(&mut self, buf: &[u8]) -> std::io::Result<usize> {
         let n = buf.len().min(self.max_accept);
+        // a writer with an ordinary appetite for stack (a formatting buffer, a regex, a decompressor): 192 KiB, a tenth of a default thread's stack
+        let scratch = [buf.first().copied().unwrap_or(0); 192 * 1024];
+        std::hint::black_box(&scratch);
         if self.sleep_us > 0 {
             std::thread::sleep(Duration::from_micros(self.sleep_us));
         }
@@ -192,6 +195,22 @@ fn expected(input: &[u8], marker: u8) -> Vec<u8> {
     out
 }
 
+/// Accepts everything, but every `.2`-th call fails with `ErrorKind::Interrupted` before taking anything (as a signal would make it).
+struct Hiccup<'a>(&'a mut Vec<u8>, usize, usize);
+impl Write for Hiccup<'_> {
+    fn write(&mut self, buf: &[u8]) -> std::io::Result<usize> {
+        self.1 += 1;
+        if self.1 % self.2 == 0 {
+            return Err(std::io::Error::from(std::io::ErrorKind::Interrupted));
+        }
+        self.0.extend_from_slice(buf);
+        Ok(buf.len())
+    }
+    fn flush(&mut self) -> std::io::Result<()> {
+        Ok(())
+    }
+}
+
 struct Trickle<'a>(&'a mut Vec<u8>, usize);
 impl Write for Trickle<'_> {
     fn write(&mut self, buf: &[u8]) -> std::io::Result<usize> {
@@ -315,6 +334,26 @@ pub fn writers(args: &[String]) {
                 }
                 check("mapped(tee).a", &a, &want);
                 check("mapped(tee).b(trickle)", &b, &want);
+                // 4b. a target that is interrupted now and then (EINTR: "try again", nothing was written): every target still gets the input once
+                let (mut a, mut b) = (Vec::new(), Vec::new());
+                {
+                    let mut w = tee(&mut a, Hiccup(&mut b, 0, 3));
+                    for c in &chunks {
+                        w.write_all(c).unwrap();
+                    }
+                    w.flush().unwrap();
+                }
+                check("tee(plain,interrupted).a", &a, &input);
+                check("tee(plain,interrupted).b", &b, &input);
+                let (mut a, mut b) = (Vec::new(), Vec::new());
+                {
+                    let mut w = line_mapped(tee(Hiccup(&mut a, 1, 2), &mut b), mapf);
+                    for c in &chunks {
+                        w.write_all(c).unwrap();
+                    }
+                }
+                check("mapped(tee(interrupted,plain)).a", &a, &want);
+                check("mapped(tee(interrupted,plain)).b", &b, &want);
                 // 5. tee of two mapped writers with different markers
                 let (mut a, mut b) = (Vec::new(), Vec::new());
                 {
